@@ -93,8 +93,9 @@ pub fn run_reads(doc: &[u8], shared: &Rc<Vec<u8>>, st: &Stream, kind: ReaderKind
             log.borrow_mut().cur_op = i as u32;
             let r = rd.read();
             if exercise {
-                if let Ok(e) = &r {
-                    crate::accessors::exercise(e, rd.decoder());
+                match &r {
+                    Ok(e) => crate::accessors::exercise(e, rd.decoder()),
+                    Err(e) => crate::accessors::exercise_err(e),
                 }
             }
             let out = Out::from(r);
